@@ -1522,6 +1522,31 @@ impl<'p, C: SimCfg> World<'p, C> {
                     }
                 }
             }
+            // C18: silent spectators are disconnected rather than buffered for
+            if plan.oracle.silent_spectators_cut {
+                for sp in 0..self.nodes.len() {
+                    let NodeKind::Spectator { host, .. } = plan.nodes[sp].kind else { continue };
+                    let Some(stop) = plan.nodes[sp].tick.stop_us else { continue };
+                    let per = plan.nodes[host].tick.period_us.max(1);
+                    // frames the host confirmed since the spectator went silent (upper bound: ticks)
+                    if self.now < stop + 400 * per {
+                        continue;
+                    }
+                    let Sess::Peer(hs) = &self.nodes[host].sess else { continue };
+                    let sizes = hs.verif_buffer_sizes();
+                    let k = plan.num_spectators_of(host).iter().position(|&x| x == sp).unwrap_or(0);
+                    let handle = plan.cfg.num_players + k;
+                    let st = sizes.endpoints.iter().find(|(h, _)| *h == handle).map(|(_, e)| (e.state, e.pending_output));
+                    let g = self.nodes[host].game.g;
+                    *self.probes.extra.entry("silent_spectators_checked").or_insert(0) += 1;
+                    if let Some((state, pending)) = st {
+                        let host_frames_since = self.nodes[host].game.g;
+                        if state < 3 && host_frames_since > 300 {
+                            self.violate("c18.silent_spectator_kept", host, g, format!("spectator node {sp} stopped polling at {} ms; {} ms later its host still treats it as connected (endpoint state {state}, {pending} unacknowledged inputs)", stop / 1000, (self.now - stop) / 1000));
+                        }
+                    }
+                }
+            }
             // C10: survivors of a dropped peer agree on its cut-off
             if plan.oracle.survivor_agreement {
                 let survivors: Vec<usize> = plan.peers().into_iter().filter(|&i| self.nodes[i].alive).collect();
